@@ -191,7 +191,9 @@ def guards(node, fn_node, substitute=True):
             # hold at call time
             out = list(out)
         cur = parent
-    if substitute:
+    if substitute and isinstance(fn_node, FUNC):
+        # (a loop or other fragment is not a scope: a name assigned once
+        # inside it may be assigned elsewhere too)
         out = [(subst_locals(fn_node, e), p) for e, p in out]
     return out
 
@@ -283,3 +285,91 @@ def necessarily_reached_under(node, fn_node, oracle):
         if v is None or v != pol:
             return False, (e, pol, v)
     return True, None
+
+
+def inline_simple_calls(repo, mod, expr, depth=3, exclude=()):
+    """`expr` with calls of module-level one-expression functions
+    (`def f(a): return <e>`) replaced by <e> with the arguments substituted
+    (positional arguments that are plain names / constants / attributes
+    only)."""
+    from sa import model as _m
+
+    class Inl(ast.NodeTransformer):
+        def visit_Call(self, n):
+            self.generic_visit(n)
+            if not isinstance(n.func, ast.Name) or n.keywords:
+                return n
+            h = mod.functions.get(n.func.id)
+            if h is None or h.parent_func is not None or \
+                    n.func.id in exclude:
+                return n
+            body = _m.strip_docstring(h.node.body)
+            if len(body) != 1 or not isinstance(body[0], ast.Return) or \
+                    body[0].value is None:
+                return n
+            ps = h.params()
+            if len(ps) != len(n.args) or not all(
+                    isinstance(a, (ast.Name, ast.Constant, ast.Attribute))
+                    for a in n.args):
+                return n
+            env = dict(zip(ps, n.args))
+
+            class Sub(ast.NodeTransformer):
+                def visit_Name(self, x):
+                    if isinstance(x.ctx, ast.Load) and x.id in env:
+                        return copy.deepcopy(env[x.id])
+                    return x
+            return Sub().visit(copy.deepcopy(body[0].value))
+    out = copy.deepcopy(expr)
+    for _ in range(depth):
+        new = Inl().visit(out)
+        if ast.dump(new) == ast.dump(out):
+            break
+        out = new
+    return out
+
+
+def as_expression(fn_node):
+    """The value a function returns as ONE expression, when its body is
+    straight-line single assignments and (nested) if / early-return
+    statements that all end in returns: `if t: return a` + `return b`
+    becomes `a if t else b`; `x if x else y` is folded to `x or y`.
+    None if the body has another shape."""
+    body = model.strip_docstring(fn_node.body)
+
+    def block(stmts):
+        if not stmts:
+            return None
+        st, rest = stmts[0], stmts[1:]
+        if isinstance(st, ast.Return):
+            return st.value if st.value is not None else ast.Constant(None)
+        if isinstance(st, ast.Assign) and len(st.targets) == 1 and \
+                isinstance(st.targets[0], ast.Name):
+            return block(rest)          # substituted afterwards
+        if isinstance(st, ast.If):
+            a = block(st.body + ([] if terminates(st.body) else rest))
+            b = block((st.orelse or []) + (
+                [] if st.orelse and terminates(st.orelse) else rest))
+            if a is None or b is None:
+                return None
+            return ast.IfExp(test=st.test, body=a, orelse=b)
+        if isinstance(st, ast.Expr) and isinstance(st.value, ast.Constant):
+            return block(rest)
+        return None
+    e = block(body)
+    if e is None:
+        return None
+    e = subst_locals(fn_node, e, only_pure=False)
+
+    class Fold(ast.NodeTransformer):
+        def visit_IfExp(self, n):
+            self.generic_visit(n)
+            t, a, b = ast.dump(n.test), ast.dump(n.body), ast.dump(n.orelse)
+            if t == a:
+                return ast.BoolOp(op=ast.Or(), values=[n.body, n.orelse])
+            if t == b:
+                return ast.BoolOp(op=ast.And(), values=[n.orelse, n.body])
+            return n
+    e = Fold().visit(e)
+    ast.fix_missing_locations(e)
+    return e
